@@ -132,11 +132,11 @@ func shareOnCommits(g kyber.Group, rabin bool, H kyber.Point, d *Deal, commits [
 }
 
 var dealKinds = []string{"honest", "share-off-poly", "commitments-altered", "index-other", "index-out-of-range", "t-out-of-range",
-	"wrong-recipient", "forged-dh-signature", "replayed-second-deal", "sid-field-altered", "garbage-plaintext", "t-different-valid", "equivocating-commitments"}
+	"wrong-recipient", "forged-dh-signature", "replayed-second-deal", "sid-field-altered", "garbage-plaintext", "t-different-valid", "equivocating-commitments", "share-of-other-under-own-index"}
 
 // kinds after which an approval is a violation of C10's second sentence
 var badDeal = map[string]bool{"share-off-poly": true, "commitments-altered": true, "index-other": true, "index-out-of-range": true,
-	"t-out-of-range": true, "forged-dh-signature": true, "garbage-plaintext": true, "corrupted-in-flight": true}
+	"t-out-of-range": true, "forged-dh-signature": true, "garbage-plaintext": true, "corrupted-in-flight": true, "share-of-other-under-own-index": true}
 
 var justKinds = []string{"correct", "wrong-share", "other-index-deal", "substituted-commitments", "none", "twice", "wrong-t", "bad-then-good"}
 
@@ -174,6 +174,15 @@ func (Engine) RunOne(t *core.Tape, prop, tier string, info *core.RunInfo) *core.
 	privs, pubs := kit.KeyPairs(g, t, "keys", n+1)
 	dPriv, dPub := privs[n], pubs[n]
 	vPubs := pubs[:n]
+	// as in a DKG, the dealer may itself be one of the verifiers (same long-term key): the deal "to
+	// itself" then arrives like any other and is authenticated like any other (seed C10e: the verifier
+	// skipped the signature check when the dealer's key was its own)
+	dealerAlso := -1
+	if t.Bool("cfg.dealerin", 300) {
+		dealerAlso = t.Intn("cfg.dealerin", n)
+		dPriv, dPub = privs[dealerAlso], pubs[dealerAlso]
+	}
+	info.Config["dealer_is_verifier"] = dealerAlso
 	secret := kit.ScalarFromTape(g, t, "keys")
 	dealer, err := va.NewDealer(dPriv, secret, kit.CopyPoints(g, vPubs), uint32(th))
 	if err != nil {
@@ -217,6 +226,9 @@ func (Engine) RunOne(t *core.Tape, prop, tier string, info *core.RunInfo) *core.
 		if malDealer && t.Bool("byz.deal", 550) {
 			kind = dealKinds[1+t.Intn("byz.deal", len(dealKinds)-1)]
 		}
+		if malDealer && i == dealerAlso && t.Bool("byz.dealerin", 400) {
+			kind = "forged-dh-signature" // somebody else claims to be the dealer towards the dealer's own verifier
+		}
 		if c04 && t.Bool("byz.deal", 700) {
 			kind = "garbage-plaintext"
 		}
@@ -237,6 +249,15 @@ func (Engine) RunOne(t *core.Tape, prop, tier string, info *core.RunInfo) *core.
 		case "index-other":
 			j := (i + 1 + t.Intn("byz.deal", n-1)) % n
 			plain = dealer.Plain(j) // a perfectly valid deal, but of verifier j
+			e, err = dealer.Custom(i, plain, nil, nil)
+		case "share-of-other-under-own-index":
+			// the verifier's own index on the secret share, but the VALUES (and, in the Rabin variant, the
+			// index of the blinding share) of another verifier: consistent among themselves, wrong for i
+			// (seed C10f: Rabin VerifyDeal evaluated the commitments at the blinding share's index)
+			j := (i + 1 + t.Intn("byz.deal", n-1)) % n
+			pj := dealer.Plain(j)
+			plain.SecV = pj.SecV
+			plain.RndI, plain.RndV = pj.RndI, pj.RndV
 			e, err = dealer.Custom(i, plain, nil, nil)
 		case "index-out-of-range":
 			plain.SecI = uint32(n + t.Intn("byz.deal", 3))
